@@ -295,8 +295,27 @@ impl<'tcx> Cx<'tcx> {
                     }
                 }
             }
-            ConstValue::Scalar(_) => {
+            ConstValue::Scalar(mir::interpret::Scalar::Ptr(ptr, _)) => {
                 o.set("valkind", J::s("ptr"));
+                // `&[u8; N]` constants (the byte-encoded template of format_args!): emit the bytes
+                if let ty::Ref(_, inner, _) = ty.kind() {
+                    if let ty::Array(et, _) = inner.kind() {
+                        if *et == tcx.types.u8 {
+                            let (prov, offset) = ptr.prov_and_relative_offset();
+                            if let mir::interpret::GlobalAlloc::Memory(a) = tcx.global_alloc(prov.alloc_id()) {
+                                let alloc = a.inner();
+                                let start = offset.bytes() as usize;
+                                let all = alloc.inspect_with_uninit_and_ptr_outside_interpreter(0..alloc.len());
+                                if start <= all.len() {
+                                    o.set(
+                                        "bytes",
+                                        J::Arr(all[start..].iter().map(|b| J::i(*b as i128)).collect()),
+                                    );
+                                }
+                            }
+                        }
+                    }
+                }
             }
             ConstValue::ZeroSized => {
                 o.set("valkind", J::s("zst"));
